@@ -7,7 +7,7 @@ export CARGO_NET_OFFLINE=true
 mkdir -p run evidence replays
 cd coq
 coq_makefile -f _CoqProject -o Makefile
-timeout 3000 make -j16
+(ulimit -v 16000000; timeout 3000 make -j16)
 cd ../ocaml
 ./build.sh
 cd ../harness
